@@ -878,6 +878,24 @@ def lower(fn: ast.FunctionDef, tuples: bool = True, ifexp: bool = True) -> ast.F
                     c.value.args = [v]  # type: ignore[attr-defined]
                     return c
                 new = [ast.copy_location(ast.If(test=ife.test, body=[mkc(ife.body)], orelse=[mkc(ife.orelse)]), st)]
+            elif ifexp and isinstance(st, (ast.Assign, ast.AnnAssign, ast.Expr, ast.Return)) and isinstance(getattr(st, "value", None), ast.Call) \
+                    and dotted(st.value.func) is not None:
+                # f(x, A if c else B, ...) with otherwise pure arguments: branch on c at statement level
+                call = st.value
+                slots = [("a", k) for k, x in enumerate(call.args) if isinstance(x, ast.IfExp)] + [("k", k) for k, x in enumerate(call.keywords) if isinstance(x.value, ast.IfExp)]
+                others = [x for x in call.args if not isinstance(x, ast.IfExp)] + [x.value for x in call.keywords if not isinstance(x.value, ast.IfExp)]
+                if len(slots) == 1 and all(is_pure_expr(x) for x in others) and not any(isinstance(x, ast.Starred) for x in call.args):
+                    kind, pos = slots[0]
+                    ife = call.args[pos] if kind == "a" else call.keywords[pos].value
+                    if is_pure_expr(ife.test):
+                        def mka(v: ast.expr) -> ast.stmt:
+                            c = copy.deepcopy(st)
+                            if kind == "a":
+                                c.value.args[pos] = v  # type: ignore[attr-defined]
+                            else:
+                                c.value.keywords[pos].value = v  # type: ignore[attr-defined]
+                            return c
+                        new = [ast.copy_location(ast.If(test=ife.test, body=[mka(ife.body)], orelse=[mka(ife.orelse)]), st)]
             if new is not None:
                 block[i:i + 1] = new
                 continue
